@@ -1,0 +1,9 @@
+//go:build verif
+
+package config
+
+// Accessors of the running configuration: assumed to have no heap effect.
+//@ func GetTimeStampKey
+//@   assumed
+//@   pure
+//@ end
